@@ -230,11 +230,71 @@ def cp4_x86(e01: bool, e02: bool, e03: bool, e12: bool, e13: bool, e23: bool,
     return _cp("x86", 4, [e01, e02, e03, e12, e13, e23], [l0, l1, l2, l3], w, [d0, False, False, d3])
 
 
+# ---- shipped example / test kernels: reported CP vs an independent longest-path recomputation ----------
+
+def _example_cp_concrete(ex, fixed):
+    from harness._pipeline import analyze, example_lines, EXAMPLES
+    lines = example_lines(ex)
+    res = analyze("\n".join(lines) + "\n", EXAMPLES[ex][1], whole=True, fixed=fixed)
+    g, kernel = res["dg"], res["kernel"]
+    # reference: longest path over the graph's own edges (load-stage nodes included) + terminal latency
+    nodes = sorted(g.dg.nodes, key=lambda n: (int(n), 0 if int(n) != n else 1))     # load stage before its instruction
+    pos = {n: i for i, n in enumerate(nodes)}
+    edges = {(pos[u], pos[v]): w for u, v, w in g.dg.edges(data="latency")}
+    lat = {k.line_number: k.latency for k in kernel}
+    clean, gen = [], []
+    for n in nodes:
+        if int(n) != n:
+            clean.append(None)
+            gen.append(None)
+            continue
+        has_ld = g.dg.has_edge(n + 0.1, n)
+        clean.append(lat[n] - (g.dg.edges[n + 0.1, n]["latency"] if has_ld else 0))
+        gen.append(lat[n])
+    t_clean = ref_longest(len(nodes), edges, clean)
+    total = res["summary"]["cp"]
+    ok = abs(total - t_clean) < 1e-9
+    if not ok:
+        # generous reading: last instruction with its full latency, own load stage not counted twice
+        best = None
+        for z, n in enumerate(nodes):
+            if gen[z] is None:
+                continue
+            ed = {k: v for k, v in edges.items() if not (k[1] == z and int(nodes[k[0]]) == n and nodes[k[0]] != n)}
+            sink = [None] * len(nodes)
+            sink[z] = gen[z]
+            c = ref_longest(len(nodes), ed, sink)
+            best = c if best is None or c > best else best
+        ok = abs(total - best) < 1e-9
+    cp = g.get_critical_path()
+    ok = ok and all(total >= k.latency - 1e-9 for k in kernel)
+    ok = ok and abs(sum(x.latency_cp for x in cp) - total) < 1e-9
+    ok = ok and all(g.dg.has_edge(a.line_number, b.line_number) for a, b in zip(cp, cp[1:]))
+    return ok, len(edges) > 0, {"kernel": EXAMPLES[ex][0], "arch": EXAMPLES[ex][1], "cp": total, "reference": t_clean, "marked_lines": [x.line_number for x in cp]}
+
+
+def examples(ex: int, fixed: bool) -> bool:
+    """
+    pre: 0 <= ex < 16
+    post: _
+    """
+    if skip(locals()):
+        return True
+    from vp.symx import pick, native
+    lo, hi = shard(16)
+    if not (lo <= ex < hi):
+        return True
+    ok, nt, sample = native(_example_cp_concrete, pick(ex, 16), True if fixed else False)
+    return verdict(ok, nontrivial=nt, sample=sample)
+
+
 CELLS = {
     "cp3_x86_ld1": {"fn": cp3_x86_ld1, "tiers": ("quick",), "bound": "n=3, all 8 dependency structures, lat ints in [0,40]; at most one instruction (symbolic position) has a load stage with symbolic wo <= lat",
                     "budget": {"quick": 170}, "shards": 16},
     "cp3_writeback": {"fn": cp3_writeback, "bound": "n=3, instruction 0 = post-indexed load (data + base write-back); consumers read data or written-back base (edge weight = symbolic p_index_latency 0..10, independent of the producer latency); int latencies 0..40",
                       "budget": {"quick": 170, "thorough": 600}, "shards": 8},
+    "examples": {"fn": examples, "bound": "16 shipped example/test kernels on zen1/zen2/tx2 (real parser, ISA data, models): reported CP vs independent longest path over the graph's edges, marked lines form a chain, per-line values add up",
+                 "budget": {"quick": 170, "thorough": 300}, "shards": 4},
     "cp3_x86": {"fn": cp3_x86, "tiers": ("thorough",), "bound": "n=3, all 8 dependency structures, lat/wo ints in [0,40], load stage per instruction symbolic",
                 "budget": {"thorough": 900}, "shards": 32},
     "cp3_a64": {"fn": cp3_a64, "tiers": ("thorough",), "bound": "as cp3_x86 with the AArch64 alias predicate", "budget": {"thorough": 900}, "shards": 16},
@@ -247,7 +307,7 @@ META = {
                   "KernelDG.get_critical_path", "networkx.dag_longest_path (traced, symbolic weights)",
                   "CP total as in Frontend.full_analysis_dict: sum(latency_cp of returned lines)"],
     "bounds": "kernels of 3 (quick) / 4 (thorough) instructions, each writing its own register; every dependency structure; all integer latencies 0..40 with 0<=wo<=lat",
-    "outside": "n > 4; shipped kernels end to end; instructions writing several registers (covered structurally by C03)",
+    "outside": "n > 4 for generated kernels; shipped kernels other than the 16 listed in harness/_pipeline.py (for those the edge set is taken from the real graph, only the longest-path step is recomputed)",
     "assumptions": ["oracle accepts either reading of 'execution latency of the last instruction' (with or without its own load stage when reached through a predecessor); both are >= every single latency and count a leading load stage once",
                     "alias predicate executed natively on concrete register names (NativeParser)"],
 }
